@@ -4,6 +4,7 @@ package sessmc
 
 import (
 	"fmt"
+	"os"
 	"sort"
 	"strconv"
 	"strings"
@@ -251,6 +252,8 @@ type World struct {
 	Now         func() time.Time
 	LastIn      *fixscan.Msg // last materialised inbound message (nil for garbage)
 	LastInT     int          // expected inbound number just before it was delivered
+	dir         string       // file-store directory of this world
+	Restarts    int
 }
 
 const (
@@ -262,9 +265,32 @@ const (
 func NewWorld(cfg Config) (*World, error) {
 	w := &World{Cfg: cfg, Now: time.Now}
 	if cfg.BeginString == "" {
-		cfg.BeginString = "FIX.4.2"
-		w.Cfg.BeginString = cfg.BeginString
+		w.Cfg.BeginString = "FIX.4.2"
 	}
+	if cfg.FileDir != "" {
+		d, err := os.MkdirTemp(cfg.FileDir, "w")
+		if err != nil {
+			return nil, err
+		}
+		w.dir = d
+	}
+	if err := w.boot(true); err != nil {
+		return nil, err
+	}
+	return w, nil
+}
+
+// Restart discards the session object (as a process restart would) and builds a new one on the
+// same persistent store directory.
+func (w *World) Restart() error {
+	w.store.MessageStore.Close()
+	w.out, w.in, w.OutOpen = nil, nil, false
+	w.ArmS, w.ArmP = false, false
+	return w.boot(false)
+}
+
+func (w *World) boot(first bool) error {
+	cfg := w.Cfg
 	id := quickfix.SessionID{BeginString: cfg.BeginString, SenderCompID: OurComp, TargetCompID: PeerComp,
 		SenderSubID: cfg.SenderSub, TargetSubID: cfg.TargetSub}
 	w.ID = id
@@ -327,7 +353,7 @@ func NewWorld(cfg Config) (*World, error) {
 	var sf quickfix.MessageStoreFactory
 	if cfg.FileDir != "" {
 		gs := quickfix.NewSettings()
-		gs.GlobalSettings().Set(config.FileStorePath, cfg.FileDir)
+		gs.GlobalSettings().Set(config.FileStorePath, w.dir)
 		gs.GlobalSettings().Set(config.FileStoreSync, "N")
 		ss2 := quickfix.NewSessionSettings()
 		ss2.Set(config.BeginString, cfg.BeginString)
@@ -340,7 +366,7 @@ func NewWorld(cfg Config) (*World, error) {
 			ss2.Set(config.TargetSubID, cfg.TargetSub)
 		}
 		if _, err := gs.AddSession(ss2); err != nil {
-			return nil, err
+			return err
 		}
 		sf = filestore.NewStoreFactory(gs)
 	} else {
@@ -349,7 +375,7 @@ func NewWorld(cfg Config) (*World, error) {
 	w.app = &recApp{w: w}
 	vs, err := quickfix.VerifNewSession(cfg.Initiator, id, recFactory{sf, w}, ss, quickfix.NewNullLogFactory(), w.app)
 	if err != nil {
-		return nil, err
+		return err
 	}
 	w.VS = vs
 	vs.BufferSessionEvents(64)
@@ -359,30 +385,46 @@ func NewWorld(cfg Config) (*World, error) {
 		func(d time.Duration) { w.ArmP, w.DurP = true, d; w.log = append(w.log, Obs{K: "armP", D: d}) })
 	// initial counters / history (set on the real store below the recorder)
 	inner := w.store.MessageStore
-	for i, t := range cfg.InitMsgs {
-		seq := i + 1
-		b := w.OurMsg(t, seq)
-		if err := inner.SaveMessage(seq, b); err != nil {
-			return nil, err
+	if first {
+		for i, t := range cfg.InitMsgs {
+			seq := i + 1
+			b := w.OurMsg(t, seq)
+			if err := inner.SaveMessage(seq, b); err != nil {
+				return err
+			}
+			w.store.noteSave(seq, b)
 		}
-		w.store.noteSave(seq, b)
-	}
-	if cfg.InitS > 1 {
-		inner.SetNextSenderMsgSeqNum(cfg.InitS)
-	}
-	if cfg.InitT > 1 {
-		inner.SetNextTargetMsgSeqNum(cfg.InitT)
+		if cfg.InitS > 1 {
+			inner.SetNextSenderMsgSeqNum(cfg.InitS)
+		}
+		if cfg.InitT > 1 {
+			inner.SetNextTargetMsgSeqNum(cfg.InitT)
+		}
+	} else {
+		// rebuild the stored-history summary from what the reopened store returns
+		if msgs, err := inner.GetMessages(1, inner.NextSenderMsgSeqNum()+64); err == nil {
+			for _, b := range msgs {
+				if m, err := fixscan.Scan(b); err == nil {
+					w.store.noteSave(m.Seq(), b)
+				}
+			}
+		}
 	}
 	vs.Start()
 	w.Started = true
-	w.log = nil
-	return w, nil
+	if first {
+		w.log = nil
+	}
+	return nil
 }
 
 // Close releases the store.
 func (w *World) Close() {
 	if w.store != nil {
 		w.store.MessageStore.Close()
+	}
+	if w.dir != "" {
+		os.RemoveAll(w.dir)
 	}
 }
 
@@ -539,7 +581,7 @@ func (e Event) String() string { return e.Name }
 // Enabled tells whether the real run loop could dispatch this event now.
 func (w *World) Enabled(e *Event) bool {
 	sn := w.VS.Snapshot()
-	if sn.Stopped && e.K != "send" {
+	if sn.Stopped && e.K != "send" && e.K != "restart" {
 		return false // the run loop has exited
 	}
 	switch e.K {
@@ -562,6 +604,8 @@ func (w *World) Enabled(e *Event) bool {
 		}
 	case "stop":
 		return !sn.PendingStop
+	case "restart":
+		return !sn.Connected && w.dir != ""
 	case "send":
 		return !sn.Stopped
 	}
@@ -618,6 +662,11 @@ func (w *World) Apply(e *Event) (obs []Obs) {
 		}
 	case "stop":
 		w.VS.StopReq()
+	case "restart":
+		w.Restarts++
+		if err := w.Restart(); err != nil {
+			w.log = append(w.log, Obs{K: "panic", Txt: "restart failed: " + err.Error()})
+		}
 	}
 	return
 }
